@@ -1186,7 +1186,7 @@ fn cmd_content(max_len: usize) {
                 Some(out)
             });
             let ok = matches!(&got, Ok(Some(g)) if g.len() == want.len() && g.iter().zip(want.iter()).all(|(a, b)| a.0 == b.0 && (a.1 - b.1).abs() < 0.01));
-            if !ok && bad.len() < 8 { bad.push(format!("{{\"glyph_run_kinds\":{:?},\"expected_glyph_displacements\":{:?},\"got\":{}}}", r, want, js(&format!("{:?}", got.map_err(|_| "PANIC"))))); }
+            if !ok && bad.len() < 8 { bad.push(format!("{{\"glyph_run_kinds\":{:?},\"expected_glyph_displacements\":{},\"got\":{}}}", r, js(&format!("{:?}", want)), js(&format!("{:?}", got.map_err(|_| "PANIC"))))); }
         }
     }
     println!("{{\"cmd\":\"content\",\"bound\":\"show-text strings of length <= {max_len} over a 12-character alphabet plus 7 fixed strings; 16 f64 setters x 6 special values; all positioned glyph runs of <= 4 glyphs over 4 kinds (plain, kerned, displaced, both)\",\"evaluated\":{},\"disagreements\":[{}]}}", evaluated, bad.join(","));
